@@ -113,8 +113,10 @@ inline SafeInt<T2> operator-(T1 a, SafeInt<T2> b) { return SafeInt<T2>(a) - b; }
 template <typename T>
 inline SafeInt<T> operator*(SafeInt<T> a, SafeInt<T> b) {
   T a_value = val(a), b_value = val(b);
-  if (b_value != 0 &&
-      SafeAbs(a_value) > std::numeric_limits<T>::max() / SafeAbs(b_value)) {
+  typename MakeUnsigned<T>::Type limit = std::numeric_limits<T>::max();
+  if (fmt::internal::is_negative(a_value) != fmt::internal::is_negative(b_value))
+    limit = limit + 1;  // a negative product can be as small as min()
+  if (b_value != 0 && SafeAbs(a_value) > limit / SafeAbs(b_value)) {
     throw OverflowError();
   }
   return a_value * b_value;
